@@ -28,11 +28,12 @@ def fld(a, i, j):
     return a[b + 2 + 2 * j], a[b + 3 + 2 * j]
 
 
-def assume(a, k, ps, nfmax, kinds, orders):
+def assume(a, k, ps, nfmax, kinds, orders, nf_exact=None):
     A = [a[0] == ps, a[1] == k, z3.Or(*[a[2] == o for o in orders])]
     for i in range(k):
         b = 3 + 7 * i
         A += [a[b] == (i % 2), z3.ULE(a[b + 1], nfmax), a[b + 6] == 0]
+        if nf_exact is not None and nf_exact[i] is not None: A.append(a[b + 1] == nf_exact[i])
         for j in range(2):
             kd, tg = fld(a, i, j)
             A.append(z3.Or(*[kd == x for x in kinds]))
@@ -56,7 +57,9 @@ def slices(tier, rng):
     out.append(mk('k2-nf1-enum-ps4', 2, 4, 1, [0, 3, 7, 5], [0]))
     if tier != 'quick':
         out.append(mk('k3-nf1-ps8', 3, 8, 1, sc8, [0, 2]))
-        out.append(mk('k3-nf2-ps4', 3, 4, 2, [0, 1, 2, 5], [0]))
+        # three types with two fields each exceed 10^6 descriptions: T0 and T1 have exactly two by-value / pointer fields, T2 at most one
+        out.append(Slice('k3-nf2-ps4', 't_graph', 3 + 7 * 3, lambda a: assume(a, 3, 4, 2, [1, 2], [0], nf_exact=[2, 2, None]) + [z3.ULE(a[3 + 7 * 2 + 1], 1)],
+                         opts={'must_reach': ['ok', 'err']}, ctx={'k': 3, 'ps': 4}))
         out.append(mk('k4-nf1-ps4', 4, 4, 1, [0, 1, 2, 5], [0, 3]))
     for ps in ((4,) if tier == 'quick' else (4, 8)):
         out.append(Slice('names-ps%d' % ps, 't_names', 9, lambda a, ps=ps: names_assume(a, ps, tier), opts={'must_reach': ['ok', 'err']}, ctx={'k': 0}))
